@@ -1779,7 +1779,7 @@ __emit:
         break;
 
     case statementType_e::Integer:
-        EmitInteger(val.node[1].intValue, *val.node[2].sourceLocValue);
+        EmitInteger(val.node[1].longValue, *val.node[2].sourceLocValue);
         break;
 
     case statementType_e::Float:
